@@ -414,6 +414,9 @@ impl Machine {
             }
             // the `*_salted` forms with `salted = false`: same result as the plain forms, through the other code path
             ["add_env_unsalted", e, a] => res(self.env(e)?.add_assertion_envelope_salted(self.env(a)?, false)),
+            // salted adds that add nothing: a refused one (the element is no assertion; callers pass such an `a`) and an absent one
+            ["add_salted_refused", e, a] => { let a = self.env(a)?; if a.is_subject_assertion() || a.is_subject_obscured() { return None; } res(self.env(e)?.add_assertion_envelope_salted(a, true)) }
+            ["add_salted_none", e] => res(self.env(e)?.add_optional_assertion_envelope_salted(None, true)),
             ["add_many_unsalted", e, xs] => { let e = self.env(e)?; let xs = self.envs(xs)?; if xs.iter().all(|x| x.is_subject_assertion() || x.is_subject_obscured()) { Val::Env(e.add_assertions_salted(&xs, false)) } else { Val::Err("InvalidFormat".into()) } }
             // recipients and SSKR with everything the library would draw at random made explicit (content key, nonce, sealed
             // messages, shares): the decompositions of encrypt_subject_to_recipients / add_recipient / sskr_split
